@@ -127,6 +127,9 @@ def r10_1(ctx):
                                f"transformed curve", where=fnq.where(), detail=v)
         inherited, own_bad = [], 0
         for q, fn in sorted(cc.kmethods.items()):
+            if fn.name.startswith("_") and not (fn.name.startswith("__") and fn.name.endswith("__")) \
+                    and any(q in cc.ctx.graph.callees(c) for c in cc.kmethods if c != q):
+                continue          # a private helper called by other methods is judged through them (they may reset after it)
             exits = cc.tables[q][(cache.Mb, False)] | cc.tables[q][(cache.N, False)]
             stale = [s for s in exits if s[1]]
             writes = cc.wlog.get(q, [])
